@@ -19,6 +19,7 @@ import copy
 
 from dsim import diffgen, domgen, domworld, gen, pipe
 from dsim import refmodel as R
+from dsim.actors import LOAD_STREAMS
 
 ID = 'C13'
 LEVEL = 'exploration'
@@ -197,7 +198,8 @@ def generate(rng, tier, cls):
         # values are then run-time strings, not the caller's literals
         ops.append({'op': 'parse', 'tree': tn, 'from': tn,
                     'via': rng.choice(['from_bytes', 'from_stream',
-                                       'shared_reader'])})
+                                       'shared_reader']),
+                    'stream': rng.choice(LOAD_STREAMS)})
 
     for _ in range(rng.randint(2, 8)):
         k = rng.below(10)
